@@ -115,7 +115,7 @@ Section Sys.
     sel_res b mx = Ok (sem_sel sx st lm).
   Proof.
     intros Hs B Hsys V E Hin. destruct (mstat_fields _ _ E) as (_ & E2 & _ & E4 & _ & E6 & _).
-    unfold sel_res. rewrite E2, E4, E6, wmux_sel.
+    unfold sel_res, run_select_in. rewrite E2, E4, E6, wmux_sel.
     destruct lm as [t k|c k]; destruct V as [V1 V2]; cbn [msel].
     - destruct (Hsys (LTh t 2)) as (ch & Hc & Hv); [cbn; split; [exact V1|lia]|].
       change (lid sx (LTh t 2)) with (cid sx (CTh t 2)) in Hc. rewrite Hc.
